@@ -91,6 +91,12 @@ CHECKS = {
    text="The specification gives, for every lattice point x of every parameter set (including degenerate ones: equal weights, equal knot heights, locally linear cubic segments, one bin), the exact image y = F(x); the real inverse on y must return x (error scaled by the exact local derivative), a finite negated log-det, and the round trip must close. LinAlg states are replayed on the real classes with Householder vectors of different and rescaled norms. Every invertible zoo transform is round-tripped in both orders in float64 with perturbed, freshly constructed and exactly-zero parameters.",
    design_ref="DESIGN.md section 4, C02",
    note="Tolerances are the implementation's declared constants on the paths that use them; off-lattice floating-point cancellation is only sampled by the zoo sweep. " + TRUSTED),
+
+ "C19": dict(
+   technique="Exact rational lattice of spec/Spline.tla (model-checked by TLC) as the common reference of both precisions; every lattice case and every zoo model evaluated as a float32 model and a float64 twin",
+   text="Lattice cases (knots, end points, tail junctions - where discriminants vanish) run in float32 and float64 in both directions: no exception, finite, input dtype preserved, float32 within single-precision accuracy (scaled by the exact slope) of float64 and of the exact rational value. Every zoo transform / distribution / flow is evaluated as a float32 model and a float64 twin with the same state dict on generic, x4-scaled, offset and +-15 grid inputs (evaluation mode, both directions) and on offset narrow batches in training mode for batch-statistics layers.",
+   design_ref="DESIGN.md section 4, C19",
+   note="Off-lattice floating-point cancellation is sampled, not searched; UMNN skipped (float32 internals); ill-conditioned compositions (sigmoid -> CDF -> logit) only at generic points. " + TRUSTED),
 }
 REASONS = {}
 
